@@ -726,8 +726,10 @@ func TestC09(t *testing.T) {
 			} else if f[2] == "discover" {
 				fmt.Fprintln(w, runDiscover(f[4]))
 			} else if f[2] == "srvstop" {
-				k, _ := strconv.Atoi(strings.TrimPrefix(f[3], "k"))
-				fmt.Fprintln(w, runServerStop(f[1], k))
+				ks := strings.TrimPrefix(f[3], "k")
+				slow := strings.HasSuffix(ks, "s")
+				k, _ := strconv.Atoi(strings.TrimSuffix(ks, "s"))
+				fmt.Fprintln(w, runServerStop(f[1], k, slow))
 			} else {
 				fmt.Fprintln(w, runCase(t, f[1], f[2], f[3], f[4]))
 			}
